@@ -377,6 +377,9 @@ op_s = st.one_of(
 PROBES = ['v_only', 'v_new', 'v_a', 'TRUE', 'ONLYA(1)', 'MY.FN(1)', 'SUM(1,2)', 'ID(3)', 'B2', 'A1:B2', 'ISBLANK(B2)', 'v_only+ONLYA(2)']
 
 
+PROBE_WANT = [(None, '#NAME?'), (None, '#NAME?'), (40, None), (True, None), (None, '#NAME?'), (None, '#NAME?'), (3, None), (None, '#NAME?'), (None, None), (None, None), (True, None), (None, '#NAME?')]
+
+
 def check_bindings(case):
     hot_ = hot()
     if case['order'] == 'B-first':
@@ -385,10 +388,9 @@ def check_bindings(case):
     else:
         A = hot_.Parser()
         B = hot_.Parser()
-    ref = hot_.Parser()
     B.set_variable('v_a', 40)
-    ref.set_variable('v_a', 40)
-    want = [ref.parse(p) for p in PROBES]
+    # what an untouched parser holding only v_a = 40 gives (fixed facts, so that state leaking through the process cannot taint the oracle)
+    want = [{'result': w if e is None else None, 'error': e} for w, e in PROBE_WANT]
     for step, op in enumerate(case['ops']):
         if op[0] == 'set_variable':
             A.set_variable(op[1], op[2])
